@@ -243,3 +243,12 @@ chk("C10", MC,
     "rounded up to 8 times possible CPUs, possible >= online an engine decision). Sizes are concrete per program: mostly "
     "exhaustive exploration, small solver part.",
     PY_NOTE, "execution of the real map wrappers in the symbolic engine against a kernel model that asserts buffer sizes", "B:8/C10")
+
+chk("C09", TV,
+    "seeded random programs (1-3 hash variables of all integer formats with defaults, some declared in a base class; Dict with "
+    "packed Structure key/value): Python side = real descriptors, HashMap.load, TheDict and Structure/Member executed "
+    "symbolically above a kernel model of the bpf map commands (defaults, set/get of symbolic values, independence, insert / "
+    "lookup / modify / absent key / iteration / pop / delete, bytes reaching the kernel vs the reference layout); program side = "
+    "emitted bytes of generated programs (hash variables copied in/out; Dict update, lookup with members copied out, in-place "
+    "modification, Else branch) executed symbolically over symbolic map contents and slot tables",
+    BASE_NOTE, "symbolic execution of the emitted eBPF bytes (z3 bit-vectors) and of the Python map API against one byte-level reference", "A:8/C09")
